@@ -535,9 +535,13 @@ def e2e_worker(case):
             bams[build], profs[build] = bam, prof
             res[build] = call(bool(case.get("phase", True)))
         out["equal_with_phase_off"] = None
+        out["calls_equal_with_phase_off"] = None
         if case.get("phase", True) and compare(res["hg19"], res["hg38"]):
             # is the phase term the only thing that differs?  (observed fact about this input, recorded in the description)
-            out["equal_with_phase_off"] = not compare(calls["hg19"](False), calls["hg38"](False))
+            off = compare(calls["hg19"](False), calls["hg38"](False))
+            out["equal_with_phase_off"] = not off
+            # ... or at least the only thing that changes the CALLS (the scores may still differ for the indel-support reason)?
+            out["calls_equal_with_phase_off"] = set(off) <= {"scores-equal"}
         # when the two builds disagree: is it already the EVIDENCE the loader builds that differs (support of the catalogued variants
         # and the indel table, expressed through the RefSeq descriptions aldy stores), or do the stages differ on equal evidence?
         out["evidence_equal"] = None
@@ -652,7 +656,7 @@ def generated_stream(chk, n, timeout_s):
                           "planted_has_insertion": r["planted_has_insertion"], "planted_has_deletion": r["planted_has_deletion"],
                           "planted_same_site_sub_and_del": r["planted_same_site"], "planted_site_merge_differs": r["planted_site_merge_differs"],
                           "evidence_equal": r.get("evidence_equal"),
-                          "indel_after_power_of_ten_in_one_build": r["indel_after_power_of_ten"][0] != r["indel_after_power_of_ten"][1], "equal_with_phase_off": r.get("equal_with_phase_off"), "site_preserving": r["sp"], "same_site_sub_and_del": r["same_site"],
+                          "indel_after_power_of_ten_in_one_build": r["indel_after_power_of_ten"][0] != r["indel_after_power_of_ten"][1], "equal_with_phase_off": r.get("equal_with_phase_off"), "calls_equal_with_phase_off": r.get("calls_equal_with_phase_off"), "site_preserving": r["sp"], "same_site_sub_and_del": r["same_site"],
                           "friendly": c["friendly"], "evidence": c.get("evidence"), "difference": classify(ra, rb, diffs)},
                      dict(c, alleles=r["alleles"]), "equal in both builds", txt)
     return hyp_terms, hyp_py, hyp_ids
